@@ -539,6 +539,8 @@ class CallMixin:
         sn = static_name(f)
         src = ast.unparse(f)
         root = sn.split(".")[0] if sn else None
+        if root == "result" and self.result_sv is not None and self.spec_mode:
+            sn, root = None, None        # `result` of a postcondition, not a module
         if sn == "object.__new__" and "object" not in st.env:
             out = []
             for s, pos, kw in self.eval_args(e, st, exc):
